@@ -52,6 +52,11 @@ def parseI64s (s : String) : Option (List Int) :=
     pure parts.flatten
 
 def parseSeg (seg : String) : Option (List Bool) :=
+  match seg.splitOn "^" with
+  | [pat, k] => do
+    let k ← k.toNat?
+    pure (List.replicate k (pat.toList.map (· == '1'))).flatten
+  | _ =>
   match seg.splitOn "*" with
   | [b, n] => do
     let n ← n.toNat?
@@ -739,7 +744,7 @@ def handle (args : List String) : Option Out :=
       let trunc := match e with
         | .ok e => !e.upper.noTruncB
         | _ => false
-      let sg := if trunc then "ef-u8-block-rank-truncated" else if xs.any (· ≥ 2 ^ 63) then "ef-extreme-value" else "ef-lossy"
+      let sg := if trunc then "ef-u8-block-rank-truncated" else if xs.any (· ≥ 2 ^ 63 - 1) then "ef-extreme-value" else "ef-lossy"
       let m := match e with
         | .ok e =>
           if op == "ef.get" then resNatS (e.get i)
@@ -793,7 +798,7 @@ def handle (args : List String) : Option Out :=
     let sp := if strictlyIncreasing xs then "ok:" ++ natList xs else "-"
     pure { model := m, spec := sp,
            sig := if sp == "-" then "-" else dev (m == sp)
-             (if trunc then "ef-u8-block-rank-truncated" else if xs.any (· ≥ 2 ^ 63) then "ef-extreme-value" else "ef-lossy") }
+             (if trunc then "ef-u8-block-rank-truncated" else if xs.any (· ≥ 2 ^ 63 - 1) then "ef-extreme-value" else "ef-lossy") }
   -- ── wavelet tree ──
   | ["wt.info", l] => do
     let xs ← parseU64s l
